@@ -67,6 +67,32 @@ Proof.
   destruct (pay_all _ _ _ _ _ _) as [[l'|] faults']; simpl in Hp; [discriminate|eauto].
 Qed.
 
+(* (3') the same for a back end that never works: a tenant whose own token contract fails every call (method 3: a
+   reserved address, F25) has its mature records deferred for ever - for every fault plan, none is lost, none is
+   reported paid *)
+Theorem C11_failing_contract_defers : forall t h uid u recs s faults,
+  t_method t = 3 -> mature u (t_period t) h = true -> valid_recips (u_recips u) <> [] ->
+  exists f', settle_loop t h ((uid, u) :: recs) s faults = (s, f', []).
+Proof.
+  intros t h uid u recs s faults Hmeth Hm Hv. apply C11_failure_defers; [assumption|assumption|].
+  rewrite Hmeth. unfold payout_amounts.
+  destruct (valid_recips (u_recips u)) as [|r0 rs] eqn:Evr; [congruence|].
+  cbn [map pay_all]. unfold pay_one.
+  destruct (match faults with [] => false | f :: _ => f end); reflexivity.
+Qed.
+
+(* (3'') and for a token contract without code (method 4): the call succeeds, the record is resolved, and nothing the
+   module can see has moved - no treasury, no balance, no token supply *)
+Theorem C11_foreign_contract_moves_nothing : forall tid denom outs l faults l' f',
+  pay_all 4 tid denom l faults outs = (Some l', f') -> l' = l.
+Proof.
+  intros tid denom. induction outs as [|o outs IH]; intros l faults l' f' H; cbn [pay_all] in H.
+  - inversion H; reflexivity.
+  - destruct o as [addr amt]. unfold pay_one in H.
+    destruct (match faults with [] => false | f :: _ => f end); [discriminate|].
+    cbn in H. apply IH in H. exact H.
+Qed.
+
 (* (4) the block always completes: the loop, the per-tenant fold and the end-block are total
    functions (no Panic outcome exists for them), for every fault plan *)
 Theorem C11_block_completes : forall s h faults, exists s' g, settlement_end_block s h faults = (s', g).
@@ -117,5 +143,7 @@ Proof. vm_compute. repeat split; reflexivity. Qed.
 Print Assumptions C11_prefix.
 Print Assumptions C11_queue_order.
 Print Assumptions C11_failure_defers.
+Print Assumptions C11_failing_contract_defers.
+Print Assumptions C11_foreign_contract_moves_nothing.
 Print Assumptions C11_block_completes.
 Print Assumptions C11_recovers.
